@@ -217,3 +217,63 @@ func specScalarAny(x interface{}) bool {
 	}
 	return false
 }
+
+// validAny: a native Go value as produced by encoding/json or yaml.v2 (or built by the library
+// itself: maps with string keys may hold ready-made JsonNodes) whose embedded JsonNodes are valid.
+// Slices and yaml maps hold native values only.
+func validAny(x interface{}) bool {
+	switch v := x.(type) {
+	case JsonNode:
+		return validNode(v)
+	case []interface{}:
+		return forallInt(0, len(v), func(i int) bool { return !isJsonNode(v[i]) && validAny(v[i]) })
+	case map[string]interface{}:
+		return forallAnyKey(v, func(k string) bool { return validAny(v[k]) })
+	case map[interface{}]interface{}:
+		return validYaml(v)
+	}
+	return true
+}
+
+func isJsonNode(x interface{}) bool {
+	_, ok := x.(JsonNode)
+	return ok
+}
+
+// validYaml: every value of a yaml.v2 map is a valid native value that is not a JsonNode.
+// (Opaque to the verifier: instantiated per iteration of a range over the map.)
+func validYaml(m map[interface{}]interface{}) bool {
+	for _, v := range m {
+		if isJsonNode(v) || !validAny(v) {
+			return false
+		}
+	}
+	return true
+}
+
+// forallAnyKey reports whether f holds for every key of m.
+func forallAnyKey(m map[string]interface{}, f func(k string) bool) bool {
+	for k := range m {
+		if !f(k) {
+			return false
+		}
+	}
+	return true
+}
+
+// specIsStringMap: a native map with string keys (what NewJsonNode turns into a jsonObject).
+func specIsStringMap(x interface{}) bool {
+	_, ok := x.(map[string]interface{})
+	return ok
+}
+
+func specIsObject(n JsonNode) bool {
+	_, ok := n.(jsonObject)
+	return ok
+}
+
+// specAllNodes: a map with string keys whose values are all ready-made JsonNodes.
+func specAllNodes(x interface{}) bool {
+	m, ok := x.(map[string]interface{})
+	return ok && forallAnyKey(m, func(k string) bool { return isJsonNode(m[k]) })
+}
